@@ -18,6 +18,16 @@
 //                                                 node, cs the same field twice, cn one field each of two nodes, xf as cf
 //                                                 through context::scope / context::get; results ts b2 l3 (sc: b3);
 //                                                 style pass = the second captured port is the result
+//                <form><code>                    TWINS: the body applies the same node type to two elements of ONE
+//                                                 structured parameter, the rules read the two twin outputs.  form: tl /
+//                                                 tb = one peered TSL / TSB output, il / ib = a structural {a, b}
+//                                                 initializer over two scalar writers, t2 = two separate scalar parameters
+//                                                 (control); code: i ident+ident, e echo(2)+echo(2) (self-scheduling),
+//                                                 m ident+echo (different node types), k echo(2)+echo(3) (different
+//                                                 scalars); results l3 (l2 / b2 for tl il / tb ib with codes i e); style
+//                                                 pass (l2, b2) = the parameter is returned unchanged
+//                rs                              result ts: the terminal is a REF-producing selector exposed as a plain
+//                                                 result; channels pick (0 = lhs, else rhs), lhs, rhs; style node only
 //        style : node   result = the output of one body node (node-owned structure)
 //                sink   as node, after a (gated) sink on the first argument (the terminal is not child node 0)
 //                proj   the body node's output is TSB{h, r:R}; the sub-graph returns the field r (non-empty source path)
@@ -35,6 +45,9 @@
 //   c <v0|-> [<v1|-> [<v2|->]]                 -> "ok"    inputs of the cycle at time MIN_ST + (number of earlier c lines)
 //   run <mode>                                 -> "ok cyc=<t,..> | <t> d={..} v={..} g={..} | ..."   or "err:<class>"
 //        mode  : inl | n1 | n2 | n3 | n4 (nested_ at that depth) | nw (nested in a wrapper graph that holds a sink, depth 2)
+//                s<d>@<k>: LATE start - the definition lives in a switch_ branch that is selected at cycle k (its arguments
+//                may already be valid); d = 0 inlined in the branch (the reference), d = 1, 2 nested_ at that depth inside
+//                the branch; only for ts:s1 b2:s2 l3:s2 b3:s3 with style node / sink / proj
 //        cyc   : times of the root engine cycles;  then one entry per cycle in which the outer recorder was evaluated:
 //                d = leaves that ticked AND have a value (leaf=value, leaf order), v = valid leaves,
 //                g = leaves that report modified() although they have no value
@@ -571,6 +584,114 @@ namespace
         }
     };
 
+    // ------------------------------------------------------------------ twins on the elements of ONE structured parameter
+    // The body applies the SAME node type with equal scalars to two same-schema elements of one structured parameter
+    // (a fixed TSL / a TSB), then the rule body reads the two twin outputs.  Inside a compiled child wiring the two twin
+    // nodes differ only in the PATH of their boundary source (graph_wiring.cpp source_key_for / Wiring::add_node interning).
+    struct TwinIdent
+    {
+        static constexpr auto name = "nestshape_twin_ident";
+        static void           eval(In<"v", L> v, Out<L> out) { out.set(v.value()); }
+    };
+    // emits the input; k steps later (woken by its own scheduler only) emits input + 100
+    struct TwinEcho
+    {
+        static constexpr auto name = "nestshape_twin_echo";
+        static void           eval(In<"v", L> v, Scalar<"k", Int> k, NodeScheduler sched, State<Int> echo, Out<L> out)
+        {
+            if (v.modified())
+            {
+                out.set(v.value());
+                echo.set(Int{v.value() + 100});
+                sched.schedule(TimeDelta{k.value()}, std::string{"e"});
+            }
+            else { out.set(echo.get()); }
+        }
+    };
+    // twin code: i ident+ident, e echo(2)+echo(2), m ident+echo(2) (different node types: control), k echo(2)+echo(3)
+    // (different scalars: control)
+    Port<L> twin_node(Wiring &w, const Port<L> &in, std::int64_t code, int idx)
+    {
+        if (code == 'i' || (code == 'm' && idx == 0)) { return wire<TwinIdent>(w, in); }
+        return wire<TwinEcho>(w, in, Int{code == 'k' && idx == 1 ? 3 : 2});
+    }
+    template <typename P> Port<L> elem_of(Wiring &w, const Port<P> &in, std::size_t i)
+    {
+        if constexpr (std::is_same_v<P, R_l2>)
+        {
+            return Port<L>{w, subgraph_wiring_detail::tsl_element_ref(in.erased(), i, schema_descriptor<L>::ts_meta())};
+        }
+        else { return Port<L>{w, subgraph_wiring_detail::tsb_field_ref(in.erased(), i, schema_descriptor<L>::ts_meta())}; }
+    }
+    template <typename R, typename P> struct GT1
+    {
+        static constexpr auto name = "nestshape_gt1";
+        static Port<R>        compose(Wiring &w, Port<P> in, Scalar<"style", Int> style, Scalar<"twin", Int> twin)
+        {
+            if (style.value() == ST_PASS)
+            {
+                if constexpr (std::is_same_v<R, P>) { return in; }
+                else { throw std::logic_error("pass needs matching shapes"); }
+            }
+            auto x = twin_node(w, elem_of<P>(w, in, 0), twin.value(), 0);
+            auto y = twin_node(w, elem_of<P>(w, in, 1), twin.value(), 1);
+            return wire_styled<R, BodyOf<R, L, L>>(w, style.value(), x, y);
+        }
+    };
+    template <typename R> struct GT2   // control: the twins read two SEPARATE scalar parameters
+    {
+        static constexpr auto name = "nestshape_gt2";
+        static Port<R>        compose(Wiring &w, Port<L> a, Port<L> b, Scalar<"style", Int> style, Scalar<"twin", Int> twin)
+        {
+            auto x = twin_node(w, a, twin.value(), 0);
+            auto y = twin_node(w, b, twin.value(), 1);
+            return wire_styled<R, BodyOf<R, L, L>>(w, style.value(), x, y);
+        }
+    };
+    template <typename R, typename P> struct DeepT1
+    {
+        static constexpr auto name = "nestshape_deept1";
+        static Port<R> compose(Wiring &w, Port<P> in, Scalar<"style", Int> style, Scalar<"twin", Int> twin, Scalar<"depth", Int> depth)
+        {
+            if (depth.value() <= 0) { return wire<GT1<R, P>>(w, in, Int{style.value()}, Int{twin.value()}); }
+            return nested_<DeepT1<R, P>>(w, in, Int{style.value()}, Int{twin.value()}, Int{depth.value() - 1});
+        }
+    };
+    template <typename R> struct DeepT2
+    {
+        static constexpr auto name = "nestshape_deept2";
+        static Port<R> compose(Wiring &w, Port<L> a, Port<L> b, Scalar<"style", Int> style, Scalar<"twin", Int> twin, Scalar<"depth", Int> depth)
+        {
+            if (depth.value() <= 0) { return wire<GT2<R>>(w, a, b, Int{style.value()}, Int{twin.value()}); }
+            return nested_<DeepT2<R>>(w, a, b, Int{style.value()}, Int{twin.value()}, Int{depth.value() - 1});
+        }
+    };
+
+    // ------------------------------------------------------------------ a REF-producing terminal exposed as a plain result
+    struct RefSel
+    {
+        static constexpr auto name = "nestshape_refsel";
+        static void           eval(In<"pick", L> pick, In<"lhs", L, InputValidity::Unchecked> lhs,
+                                   In<"rhs", L, InputValidity::Unchecked> rhs, Out<REF<L>> out)
+        {
+            if (pick.modified()) { out.set(pick.value() != 0 ? rhs.reference() : lhs.reference()); }
+        }
+    };
+    struct GRefT
+    {
+        static constexpr auto name = "nestshape_greft";
+        static Port<L>        compose(Wiring &w, Port<L> pick, Port<L> a, Port<L> b) { return wire<RefSel>(w, pick, a, b).template as<L>(); }
+    };
+    struct DeepRef
+    {
+        static constexpr auto name = "nestshape_deepref";
+        static Port<L>        compose(Wiring &w, Port<L> pick, Port<L> a, Port<L> b, Scalar<"depth", Int> depth)
+        {
+            if (depth.value() <= 0) { return wire<GRefT>(w, pick, a, b); }
+            return nested_<DeepRef>(w, pick, a, b, Int{depth.value() - 1});
+        }
+    };
+
     // ------------------------------------------------------------------ harness nodes
     std::map<std::int64_t, std::pair<std::string, std::string>> g_rec;     // time -> (delta, value)
     std::set<std::int64_t>                                      g_cycles;
@@ -646,7 +767,31 @@ namespace
         }
     };
 
-    enum Mode { M_INL, M_N1, M_N2, M_N3, M_N4, M_NW };
+    enum Mode { M_INL, M_N1, M_N2, M_N3, M_N4, M_NW, M_SW };
+
+    // late start: the sub-graph lives in a switch_ branch selected at cycle g_sw_time (its arguments may be valid by
+    // then); inside the branch it is inlined (g_sw_depth 0) or nested_ at depth g_sw_depth
+    std::int64_t g_sw_time = 1, g_sw_depth = 0, g_sw_style = 0;
+    struct KeyWriter
+    {
+        static constexpr auto name = "nestshape_key";
+        static void           start(NodeScheduler sched) { sched.schedule(dt(k_start + g_sw_time - 1)); }
+        static void           eval(Out<L> out) { out.set(Int{1}); }
+    };
+    template <typename R, typename A0, typename... As> struct SwBranch
+    {
+        static constexpr auto name = "nestshape_branch";
+        static Port<R>        compose(Wiring &w, Port<A0> a0, Port<As>... as)
+        {
+            if (g_sw_depth <= 0) { return wire<G<R, A0, As...>>(w, a0, as..., Int{g_sw_style}); }
+            return wire<Deep<R, A0, As...>>(w, a0, as..., Int{g_sw_style}, Int{g_sw_depth});
+        }
+    };
+    template <typename R, typename... As> struct SwOk : std::false_type {};
+    template <> struct SwOk<R_ts, L> : std::true_type {};
+    template <> struct SwOk<R_b2, L, L> : std::true_type {};
+    template <> struct SwOk<R_l3, L, L> : std::true_type {};
+    template <> struct SwOk<R_b3, L, L, L> : std::true_type {};
 
     void execute(Wiring &&w)
     {
@@ -669,6 +814,16 @@ namespace
             {
                 case M_INL: return wire<G<R, A0, As...>>(w, a0, std::get<I>(rest)..., style);
                 case M_NW: return nested_<Wrap<R, A0, As...>>(w, a0, std::get<I>(rest)..., style);
+                case M_SW:
+                    if constexpr (SwOk<R, A0, As...>::value)
+                    {
+                        g_sw_style = style;
+                        auto key   = wire<KeyWriter>(w).template as<L>();
+                        return wire<stdlib::switch_>(w, key, stdlib::switch_cases({{Value{Int{1}}, fn<SwBranch<R, A0, As...>>()}}), a0,
+                                                     std::get<I>(rest)...)
+                            .template as<R>();
+                    }
+                    else { throw std::logic_error("no late-start variant for this definition"); }
                 default: return wire<Deep<R, A0, As...>>(w, a0, std::get<I>(rest)..., style, Int{static_cast<std::int64_t>(mode)});
             }
         }
@@ -765,12 +920,71 @@ namespace
         }
     };
 
+    // twins: form tl / tb = ONE peered TSL / TSB output as argument, il / ib = a structural {a, b} initializer over two
+    // scalar writers, t2 = two separate scalar parameters (control); third letter of the token = twin code
+    template <typename R, typename P> struct RunnerT1
+    {
+        static void run(bool initializer, std::int64_t twin, Mode mode, Int style)
+        {
+            Wiring  w{WiringKind::TopLevel, WiringOptions{}};
+            Port<R> out;
+            const Int depth{mode == M_NW ? 2 : static_cast<std::int64_t>(mode)};
+            if (initializer)
+            {
+                auto a = wire<Writer<L>>(w, Int{0}, Int{1}).template as<L>();
+                auto b = wire<Writer<L>>(w, Int{1}, Int{1}).template as<L>();
+                out    = mode == M_INL ? wire<GT1<R, P>>(w, {a, b}, style, Int{twin})
+                                       : wire<DeepT1<R, P>>(w, {a, b}, style, Int{twin}, depth);
+            }
+            else
+            {
+                auto q = wire<Writer<P>>(w, Int{0}, Int{2}).template as<P>();
+                out    = mode == M_INL ? wire<GT1<R, P>>(w, q, style, Int{twin}) : wire<DeepT1<R, P>>(w, q, style, Int{twin}, depth);
+            }
+            wire<Recorder<R>>(w, out);
+            execute(std::move(w));
+        }
+    };
+    template <typename R> struct RunnerT2
+    {
+        static void run(std::int64_t twin, Mode mode, Int style)
+        {
+            Wiring  w{WiringKind::TopLevel, WiringOptions{}};
+            auto    a = wire<Writer<L>>(w, Int{0}, Int{1}).template as<L>();
+            auto    b = wire<Writer<L>>(w, Int{1}, Int{1}).template as<L>();
+            const Int depth{mode == M_NW ? 2 : static_cast<std::int64_t>(mode)};
+            Port<R> out = mode == M_INL ? wire<GT2<R>>(w, a, b, style, Int{twin}) : wire<DeepT2<R>>(w, a, b, style, Int{twin}, depth);
+            wire<Recorder<R>>(w, out);
+            execute(std::move(w));
+        }
+    };
+    struct RunnerRef
+    {
+        static void run(Mode mode)
+        {
+            Wiring  w{WiringKind::TopLevel, WiringOptions{}};
+            auto    p = wire<Writer<L>>(w, Int{0}, Int{1}).template as<L>();
+            auto    a = wire<Writer<L>>(w, Int{1}, Int{1}).template as<L>();
+            auto    b = wire<Writer<L>>(w, Int{2}, Int{1}).template as<L>();
+            const Int depth{mode == M_NW ? 2 : static_cast<std::int64_t>(mode)};
+            Port<L> out = mode == M_INL ? wire<GRefT>(w, p, a, b) : wire<DeepRef>(w, p, a, b, depth);
+            wire<Recorder<L>>(w, out);
+            execute(std::move(w));
+        }
+    };
+
     // the vocabulary of (result, arguments) pairs (kept small: every pair instantiates the wiring templates)
     const std::set<std::string> k_pairs{"ts:s1", "ts:ab", "b2:s2", "b2:ab", "b2:bs", "b3:s3", "b3:s1", "b4:s2", "b4:al", "l2:s1", "l2:al",
                                         "l3:s2", "l3:bs", "l4:s1", "l4:s3", "bl:s2", "bl:ab", "lb:s2", "lb:al",
                                         // captured outer ports (args = capture kind)
                                         "ts:cf", "ts:cr", "ts:cl", "ts:cs", "ts:cn", "ts:xf", "b2:cf", "b2:cr", "b2:cl", "b2:cs", "b2:cn", "b2:xf",
-                                        "l3:cf", "l3:cr", "l3:cl", "l3:cs", "l3:cn", "l3:xf", "b3:sc"};
+                                        "l3:cf", "l3:cr", "l3:cl", "l3:cs", "l3:cn", "l3:xf", "b3:sc",
+                                        // twins on one structured parameter: tl tb il ib t2 + twin code i e m k; pass for equal shapes
+                                        "l3:tli", "l3:tle", "l3:tlm", "l3:tlk", "l3:tbi", "l3:tbe", "l3:tbm", "l3:tbk", "l3:ili", "l3:ile", "l3:ilm",
+                                        "l3:ilk", "l3:ibi", "l3:ibe", "l3:ibm", "l3:ibk", "l3:t2i", "l3:t2e", "l3:t2m", "l3:t2k",
+                                        "l2:tli", "l2:tle", "l2:ili", "l2:ile", "b2:tbi", "b2:tbe", "b2:ibi", "b2:ibe",
+                                        // a REF-producing terminal exposed as a plain result (channels: pick, lhs, rhs)
+                                        "ts:rs"};
     bool run_def(Mode mode, Int style)
     {
         const std::string p = g_def.res + ":" + g_def.args;
@@ -783,6 +997,20 @@ namespace
             return true;
         }
         if (p == "b3:sc") { RunnerC1<R_b3>::run(g_def.args, mode, style); return true; }
+        if (p == "ts:rs") { RunnerRef::run(mode); return true; }
+        if (g_def.args.size() == 3)
+        {
+            const std::string  form = g_def.args.substr(0, 2);
+            const std::int64_t twin = g_def.args[2];
+            const bool         init = form[0] == 'i';
+            if (form == "t2") { RunnerT2<R_l3>::run(twin, mode, style); }
+            else if (g_def.res == "l3" && form[1] == 'l') { RunnerT1<R_l3, R_l2>::run(init, twin, mode, style); }
+            else if (g_def.res == "l3" && form[1] == 'b') { RunnerT1<R_l3, R_b2>::run(init, twin, mode, style); }
+            else if (g_def.res == "l2") { RunnerT1<R_l2, R_l2>::run(init, twin, mode, style); }
+            else if (g_def.res == "b2") { RunnerT1<R_b2, R_b2>::run(init, twin, mode, style); }
+            else { return false; }
+            return true;
+        }
         if (p == "ts:s1") { Runner<R_ts, L>::run(mode, style); }
         else if (p == "ts:ab") { Runner<R_ts, R_b2>::run(mode, style); }
         else if (p == "b2:s2") { Runner<R_b2, L, L>::run(mode, style); }
@@ -821,7 +1049,8 @@ namespace
     int chans_of(const std::string &a)
     {
         static const std::map<std::string, int> m{{"s1", 1}, {"s2", 2}, {"s3", 3}, {"ab", 2}, {"al", 2}, {"bs", 3}, {"cf", 2}, {"cr", 2},
-                                                  {"cl", 2}, {"cs", 1}, {"cn", 2}, {"xf", 2}, {"sc", 3}};
+                                                  {"cl", 2}, {"cs", 1}, {"cn", 2}, {"xf", 2}, {"sc", 3}, {"rs", 3}};
+        if (a.size() == 3) { return 2; }   // twin forms
         auto it = m.find(a);
         return it == m.end() ? 0 : it->second;
     }
@@ -875,8 +1104,11 @@ namespace
         if (!styles.count(d.style)) { return false; }
         d.bch = d.args == "cs" ? 2 : d.chans;
         const bool captured = d.args[0] == 'c' || d.args[0] == 'x';
-        if ((captured || d.args == "sc") && d.style == "comp") { return false; }
-        if (d.style == "pass" && !((d.res == "ts" && (d.args[0] == 's' || captured)) || (d.res == "b2" && (d.args == "ab" || d.args == "bs")) || (d.res == "l2" && d.args == "al"))) { return false; }
+        const bool twins = d.args.size() == 3;
+        if ((captured || d.args == "sc" || twins || d.args == "rs") && d.style == "comp") { return false; }
+        if (d.args == "rs" && d.style != "node") { return false; }
+        if (twins && d.style == "pass" && !(d.res != "l3" && d.args.substr(0, 2) != "t2")) { return false; }
+        if (!twins && d.style == "pass" && !((d.res == "ts" && (d.args[0] == 's' || captured)) || (d.res == "b2" && (d.args == "ab" || d.args == "bs")) || (d.res == "l2" && d.args == "al"))) { return false; }
         if (d.style == "comp" && !(d.res == "b2" || d.res == "b3" || d.res == "b4" || d.res == "l2" || d.res == "l3" || d.res == "l4")) { return false; }
         if (!parse_timer(ws[4], d)) { return false; }
         if (static_cast<int>(ws.size()) != 5 + nl) { return false; }
@@ -940,13 +1172,30 @@ int main()
             static const std::map<std::string, Mode> modes{{"inl", M_INL}, {"n1", M_N1}, {"n2", M_N2}, {"n3", M_N3}, {"n4", M_N4}, {"nw", M_NW}};
             static const std::map<std::string, Style> styles{{"node", ST_NODE}, {"sink", ST_SINK}, {"proj", ST_PROJ}, {"pass", ST_PASS}, {"comp", ST_COMP}};
             auto m = modes.find(ws[1]);
-            if (m == modes.end()) { std::cout << "bad-op\n"; continue; }
+            Mode mode = M_INL;
+            if (m != modes.end()) { mode = m->second; }
+            else
+            {
+                // s<depth>@<cycle>: late start inside a switch_ branch
+                const std::string &t = ws[1];
+                std::int64_t       at = 0;
+                static const std::set<std::string> sw_pairs{"ts:s1", "b2:s2", "l3:s2", "b3:s3"};
+                if (t.size() >= 4 && t[0] == 's' && t[1] >= '0' && t[1] <= '2' && t[2] == '@' && to_int(t.substr(3), at) && at >= 1 &&
+                    at <= static_cast<std::int64_t>(g_hist.size()) && sw_pairs.count(g_def.res + ":" + g_def.args) &&
+                    (g_def.style == "node" || g_def.style == "sink" || g_def.style == "proj"))
+                {
+                    mode       = M_SW;
+                    g_sw_depth = t[1] - '0';
+                    g_sw_time  = at;
+                }
+                else { std::cout << "bad-op\n"; continue; }
+            }
             for (auto &s : g_st) { s = St{}; }
             g_rec.clear(); g_cycles.clear();
             std::string result;
             try
             {
-                run_def(m->second, Int{static_cast<std::int64_t>(styles.at(g_def.style))});
+                run_def(mode, Int{static_cast<std::int64_t>(styles.at(g_def.style))});
                 result = "ok cyc=";
                 bool firstc = true;
                 for (auto t : g_cycles) { result += (firstc ? "" : ",") + std::to_string(t); firstc = false; }
